@@ -298,6 +298,7 @@ func runC03(c *Ctx) {
 	c.redisLostTxReread(rd, "C03.R20")
 	c.inmemSuccessStored(im, "C03.R21")
 	c.redisGetManySlots(rd, "C03.R22")
+	c.inmemListWalksTable(im, "C03.R23")
 }
 
 func runC06(c *Ctx) {
